@@ -206,6 +206,9 @@ func checkC07(c *Ctx, r *Report) {
 
 	ruleHelperShape(c, r, "C07.d", helperShape{Fn: "generator/swagen/swagtool.IsFieldRequired", AllowedCalls: []string{"strings.Split"}, MustConsts: []string{",", "required"},
 		Why: "a property is listed under `required` iff `required` is one of the comma-separated rules of its validate tag"})
+
+	// every element filter in these packages is a reviewed one
+	ruleSkipInventory(c, r, "C07.e", loadSkipTable(c.VerifDir), 6, "generator/swagen", "core/metadata", "core/visitors")
 }
 
 // checkAliasWrites implements C07.a.
